@@ -199,5 +199,72 @@ def run(rep: Report, tier: str) -> None:
                             f"DataFrame Date column with the values {vals}: stored as {'TIMESTAMP' if is_ts else 'DATE'} (overrides = {got}); it must be TIMESTAMP exactly when SOME value has a "
                             f"time part: a column mixing plain dates and date-times stored as DATE silently drops the times, while the CSV loader (always TIMESTAMP) keeps them"))
             break
+    # ---- R18.7: the fetch formats each TIMESTAMP column by ITS OWN content (CSV stores every Date as TIMESTAMP, DataFrames only those with a time) ----
+    rep.rule("R18.7", "result fetch: a TIMESTAMP column is rendered with a time of day iff that column holds one (decided per column, evaluated on a model table)")
+    fs = P.func("vtlengine.duckdb_transpiler.io._execution._build_dataset_fetch_select")
+    has_time = {"D_time": True, "D_date": False}
+
+    class _Rel:
+        def __init__(self, description: Any = None, row: Any = None) -> None:
+            self.description, self._row = description, row
+
+        def fetchone(self) -> Any:
+            return self._row
+
+        def fetchall(self) -> Any:
+            return [self._row] if self._row is not None else []
+
+    class _Conn:
+        def __init__(self) -> None:
+            self.queries: List[str] = []
+
+        def execute(self, q: str, *a: Any) -> "_Rel":
+            self.queries.append(q)
+            if "LIMIT 0" in q.upper():
+                return _Rel(description=[("Id_1", "BIGINT"), ("D_time", "TIMESTAMP"), ("D_date", "TIMESTAMP")])
+            # a probe: one answer per top-level select item = does any column it tests for a time part hold one?
+            body = q.strip()[len("SELECT"):] if q.strip().upper().startswith("SELECT") else q
+            items, depth, cur = [], 0, ""
+            for ch in body:
+                depth += ch == "("
+                depth -= ch == ")"
+                if ch == "," and depth == 0:
+                    items.append(cur)
+                    cur = ""
+                else:
+                    cur += ch
+            items.append(cur)
+            ans = []
+            for it_ in items:
+                cols = set(re.findall(r'(?:hour|minute|second|microsecond)\(\s*"([^"]+)"', it_, re.I))
+                if not cols:
+                    raise AnalysisError(f"R18.7: probe query not understood by the model: `{q[:100]}`")
+                ans.append(any(has_time.get(c_, False) for c_ in cols))
+            return _Rel(row=tuple(ans))
+    dsm = ExternalObj({"components": {"Id_1": None, "D_time": None, "D_date": None}, "name": "DS_r"})
+    try:
+        sel = Interp(P).call(fs, {"conn": _Conn(), "result_name": "DS_r", "ds": dsm})
+    except (_Unm, Raised) as e:
+        raise AnalysisError(f"R18.7: _build_dataset_fetch_select outside the evaluator's language: {e}")
+    sel = " ".join(str(sel).split())
+    rep.instance("R18.7", "per-column-time-format", nontrivial=True, sample={"select": sel[:260]})
+    # the select item of a column = the text that ends with `AS "<col>"` and starts after the previous item's alias (items are in component order)
+    ends = {c_: sel.find(f'AS "{c_}"') for c_ in has_time}
+    if any(v < 0 for v in ends.values()):
+        raise AnalysisError(f"R18.7: the fetch SELECT does not alias the TIMESTAMP columns by name: `{sel[:120]}`")
+    order = sorted(ends, key=lambda k: ends[k])
+    seg: Dict[str, str] = {}
+    prev_end = 0
+    for c_ in order:
+        seg[c_] = sel[prev_end:ends[c_]]
+        prev_end = ends[c_] + len(f'AS "{c_}"')
+    for c_, want_t in has_time.items():
+        txt = seg[c_]
+        got_t = "%H" in txt
+        if not txt or got_t != want_t:
+            rep.add(Finding("R18.7", f"R18.7/per-column-time-format/{c_}", fs.module.rel, fs.node.lineno, fs.qualname,
+                            f"a result with two TIMESTAMP columns, D_time holding a time of day and D_date only midnights: {c_} is rendered {'with' if got_t else 'without'} a time part "
+                            f"(`{txt[:90]}`); each column must be decided by its own content - the CSV loader stores every Date column as TIMESTAMP, so the same table given as CSV and "
+                            f"as a DataFrame would otherwise come back as `2020-05-05T00:00:00` and `2020-05-05`"))
     rep.assumptions = ["a CSV value and a string-typed DataFrame/Parquet value with the same text must meet the same rejecting guards",
                        "guards are recognised by error(), regexp_matches and FLOOR/TRUNC integrality tests in the emitted SQL"]
